@@ -276,6 +276,35 @@ EXH_FUNCS = ("sum", "mean", "min", "max", "count", "size", "nunique", "first", "
              "var", "std", "prod", "median", "value_counts", "agg-list", "agg-named")
 
 
+_FULL = ("split_out", "shuffle_method", "split_every")
+GRID_KEYS = (
+    (["a"], {}), (["n"], {"dropna": False}), (["n"], {}), (["a", "b"], {}), (["k"], {"observed": False}),
+    (["k", "a"], {"observed": False}), (["s:a%2"], {}), (["@index"], {}), (["s:c.round"], {"dropna": False}),
+    (["s:d>0", "b"], {}), (["a", "b"], {"dropna": False}), (["a"], {"sort": True}),
+)
+GRID_OPS = tuple(
+    [({"kind": "single", "fn": fn, "sel": "d"}, _FULL) for fn in
+     ("sum", "mean", "min", "max", "count", "size", "nunique", "first", "last", "idxmin", "idxmax", "var", "std", "prod", "median")]
+    + [({"kind": "single", "fn": fn, "sel": ["d", "c"]}, _FULL) for fn in ("sum", "mean", "var", "first", "median", "idxmax")]
+    + [({"kind": "single", "fn": "count", "sel": None}, _FULL), ({"kind": "single", "fn": "size", "sel": None}, _FULL),
+       ({"kind": "single", "fn": "cov", "sel": ["c", "d"]}, ("split_out", "split_every")),
+       ({"kind": "single", "fn": "corr", "sel": ["c", "d"]}, ("split_out", "split_every")),
+       ({"kind": "agg", "form": "list", "sel": ["c", "d"], "spec": ["sum", "mean", "max"]}, _FULL),
+       ({"kind": "agg", "form": "dictlist", "sel": None, "spec": {"c": "sum", "d": ["min", "std"]}}, _FULL),
+       ({"kind": "agg", "form": "named", "sel": None, "spec": {"x": ["c", "sum"], "y": ["d", "last"]}}, _FULL),
+       ({"kind": "agg", "form": "s-list", "sel": "d", "spec": ["count", "var"]}, _FULL),
+       ({"kind": "agg", "form": "s-named", "sel": "d", "spec": {"lo": "min", "hi": "max"}}, _FULL),
+       ({"kind": "agg", "form": "list", "sel": ["c", "d"], "spec": ["median", "sum"]}, _FULL),
+       ({"kind": "agg", "form": "s-str", "sel": "d", "spec": "median"}, _FULL),
+       ({"kind": "value_counts", "sel": "e"}, _FULL),
+       ({"kind": "cum", "fn": "cumsum", "sel": "d"}, ()), ({"kind": "cum", "fn": "cumprod", "sel": ["d", "c"]}, ()),
+       ({"kind": "cum", "fn": "cumcount", "sel": None}, ()),
+       ({"kind": "transform", "func": "mean", "sel": "d"}, ("shuffle_method",)),
+       ({"kind": "shift", "periods": 1, "sel": "d"}, ("shuffle_method",)),
+       ({"kind": "ffill", "sel": "c"}, ("shuffle_method",)), ({"kind": "bfill", "sel": ["c", "m"]}, ("shuffle_method",))]
+)
+
+
 def _exh_op(fn):
     if fn == "size":
         return {"kind": "single", "fn": "size", "sel": None}
@@ -285,7 +314,7 @@ def _exh_op(fn):
         return {"kind": "agg", "form": "list", "sel": ["c", "d"], "spec": ["sum", "mean", "max"]}
     if fn == "agg-named":
         return {"kind": "agg", "form": "named", "sel": None, "spec": {"x": ["c", "sum"], "y": ["d", "std"]}}
-    return {"kind": "single", "fn": fn, "sel": "c" if fn != "nunique" else "d"}
+    return {"kind": "single", "fn": fn, "sel": "d" if fn in ("nunique", "idxmin", "idxmax") else "c"}
 
 
 def cases(tier, seed):
@@ -311,8 +340,32 @@ def cases(tier, seed):
                         yield {"space": "exhaustive", "fseed": 38, "nrows": 24, "index": "sorted", "groups": "few",
                                "nakey": False, "part": {"how": "slices", "cuts": [5, 11, 11, 19]},
                                "by": by, "bylist": False, "gkw": gkw, "op": _exh_op(fn), "akw": akw}
+    # ---- complete sub-space B: edge grid = every operation form x key kind x {frame with an empty partition,
+    #      empty frame} x {no keywords, split_out=2 + task shuffle} --------------------------------------------
+    for nrows, part, index in ((24, {"how": "slices", "cuts": [0, 5, 11, 11, 19]}, None), (0, {"how": "npartitions", "n": 2}, None)):
+        for by, g0 in GRID_KEYS:
+            for op, allow in GRID_OPS:
+                if op.get("fn") in ("cov", "corr") and by not in (["a"], ["a", "b"]):
+                    continue
+                used = {_base_col(t) for t in by if not t.startswith("s:")}
+                sel = op.get("sel")
+                if sel is not None and (set(sel if isinstance(sel, list) else [sel]) & used):
+                    continue
+                if op["kind"] == "agg" and isinstance(op["spec"], dict) and op["form"] != "s-named" and \
+                        ({(v[0] if op["form"] == "named" else k) for k, v in op["spec"].items()} & used):
+                    continue
+                variants = [{}, {"split_out": 2, "shuffle_method": "tasks"}]
+                if op.get("fn") == "median" or (op["kind"] == "agg" and "median" in _agg_funcs(op)):
+                    variants.append({"split_every": 8})
+                for akw in variants:
+                    akw = {k: v for k, v in akw.items() if k in allow}
+                    yield {"space": "exhaustive", "fseed": 3838, "nrows": nrows, "index": "dups" if "@index" in by else "sorted",
+                           "groups": "few", "nakey": False, "part": part, "by": by, "bylist": False, "gkw": dict(g0),
+                           "op": op, "akw": akw}
+                    if not allow:
+                        break
     # ---- random ------------------------------------------------------------------------------------
-    k = 1700 if tier == "quick" else 42000
+    k = 2400 if tier == "quick" else 60000
     from vf.gen.frames import INDEX_KINDS, rand_partition_desc
 
     for _ in range(k):
@@ -326,6 +379,13 @@ def cases(tier, seed):
         if any(t == "@index" for t in by) and rng.random() < 0.5:
             index = "dups"
         op, allow, odep = _rand_op(rng, by)
+        nakey = rng.random() < 0.3
+        if op.get("fn") in ("cov", "corr"):
+            # cov/corr: plain column keys without NA, float/int value columns (see Calibration)
+            by = rng.choice((["a"], ["b"], ["e"], ["g"], ["a", "b"], ["e", "a"], ["g", "e"]))
+            cols = [c for c in ("c", "d", "a") if c not in by]
+            op["sel"] = rng.sample(cols, 2 if len(cols) == 2 or rng.random() < 0.6 else 3)
+            nakey = False
         plain = odep and rng.random() < 0.55
         akw = _rand_akw(rng, allow, plain=plain)
         gkw = _rand_gkw(rng, by)
@@ -334,7 +394,7 @@ def cases(tier, seed):
             # sort is what the statement names
             pass
         yield {"fseed": rng.randrange(2 ** 31), "nrows": nrows, "index": index, "groups": groups,
-               "nakey": rng.random() < 0.3, "part": rand_partition_desc(rng, nrows, allow_unknown=True),
+               "nakey": nakey, "part": rand_partition_desc(rng, nrows, allow_unknown=True),
                "by": by, "bylist": rng.random() < 0.3, "gkw": gkw, "op": op, "akw": akw}
 
 
@@ -475,6 +535,21 @@ def _keysorted(x):
     return x.iloc[np.asarray(order)]
 
 
+def _plain_index(idx):
+    """index with categorical levels turned into their values (categories are compared as sets elsewhere)."""
+    import pandas as pd
+
+    if isinstance(idx, pd.MultiIndex):
+        f = idx.to_frame(index=False)
+        for c in f.columns:
+            if isinstance(f[c].dtype, pd.CategoricalDtype):
+                f[c] = f[c].astype(object)
+        return pd.MultiIndex.from_frame(f, names=list(idx.names))
+    if isinstance(idx.dtype, pd.CategoricalDtype):
+        return idx.astype(object)
+    return idx
+
+
 def _key_frame(idx, nkeys):
     import pandas as pd
 
@@ -516,6 +591,21 @@ def _row_na_keys(pdf, case):
         else:
             m |= pdf[k].isna().to_numpy()
     return m
+
+
+def _neg_zero_key(pdf, case):
+    import numpy as np
+    import pandas as pd
+
+    ks = _keys(pdf, case)
+    for k in ks if isinstance(ks, list) else [ks]:
+        v = k if isinstance(k, pd.Series) else (pdf[k] if k in pdf.columns else None)
+        if v is not None and v.dtype == "float64":
+            a = v.to_numpy()
+            z = a == 0
+            if (z & np.signbit(a)).any() and (z & ~np.signbit(a)).any():
+                return True
+    return False
 
 
 def _partition_key_sets(ddf, case):
@@ -564,7 +654,8 @@ def _features(case, pdf, ddf, plan):
     selcols = list(pdf.columns) if sel is None else (sel if isinstance(sel, list) else [sel])
     f = {}
     f["shuffle-plan"] = any("Shuffle" in n for n in plan)
-    f["split_out>1"] = akw.get("split_out") not in (None, 1)
+    so = akw.get("split_out")
+    f["split_out>1"] = so is True or (so is not None and so != 1)
     f["shuffle_method"] = akw.get("shuffle_method")
     f["split_every"] = akw.get("split_every")
     f["sort"] = gkw.get("sort")
@@ -576,12 +667,25 @@ def _features(case, pdf, ddf, plan):
     f["series-key-name-collides"] = any(t.startswith("s:") and _base_col(t) in selcols for t in by)
     f["index-key"] = any(t.startswith("@") for t in by)
     f["na-keys"] = bool(_row_na_keys(pdf, case).any())
+    f["nullable-int-key"] = "n" in by
+    f["datetime-key"] = "t" in by
+    f["neg-zero-key"] = _neg_zero_key(pdf, case)
     f["npartitions"] = ddf.npartitions
+    f["empty-partition"] = any(n == 0 for n in _part_lengths(case, len(pdf), ddf))
     f["known-divisions"] = bool(ddf.known_divisions)
     f["index-increasing-unique"] = bool(pdf.index.is_monotonic_increasing and pdf.index.is_unique)
     f["index-unique"] = bool(pdf.index.is_unique)
+    f["rows"] = len(pdf)
     f["values-have-NA"] = bool(pdf[[c for c in selcols if c in pdf.columns]].isna().any().any())
     return f
+
+
+def _fallback_pred(f):
+    if not f.get("rows", 1):
+        return "empty-frame"
+    if f.get("cat-key") and f.get("observed") is False:
+        return "cat-key&observed=False"
+    return "other"
 
 
 class _Judge:
@@ -596,6 +700,8 @@ class _Judge:
         self.got = self.exp = None
 
     def report(self, pred, symptom, msg, fam=None):
+        if pred == "other":
+            pred = _fallback_pred(self.f)
         label = "%s:%s:%s" % (fam or self.fam, pred, symptom)
         self.ctx.violation(label, msg, features=self.f, by=self.case["by"], gkw=self.case["gkw"], akw=self.case["akw"],
                            op=self.case["op"], got=self.got, expected=self.exp)
@@ -629,11 +735,15 @@ class _Judge:
             if same_set:
                 pred = "other"
                 sel = op.get("sel")
-                if self.fam in ("mean-var-std", "cov-corr", "median") and isinstance(sel, list) \
-                        and [c for c in self.pdf.columns if c in sel] != sel:
-                    pred = "list-selection-not-in-frame-order"
+                if isinstance(sel, list) and [c for c in self.pdf.columns if c in sel] != sel:
+                    if self.fam in ("mean-var-std", "cov-corr", "median"):
+                        pred = "list-selection-not-in-frame-order"
+                    elif kind == "agg" and "median" in _agg_funcs(op):
+                        pred = "agg[median]&list-selection-not-in-frame-order"
                 self.report(pred, "columns-order", "columns %s vs expected %s" % (list(r.columns), list(e.columns)))
                 r = r[list(e.columns)]
+                if self.fam == "cov-corr":
+                    self.ordered = False      # the inner index level lists the same columns
             else:
                 pred = "other"
                 if kind == "agg" and "median" in _agg_funcs(op) and op["form"] in ("s-list", "s-named"):
@@ -646,10 +756,14 @@ class _Judge:
         # 3 -- names
         if isinstance(e, pd.Series) and not (r.name == e.name or (pd.isna(r.name) if not isinstance(r.name, tuple) else False)
                                              and (pd.isna(e.name) if not isinstance(e.name, tuple) else False)):
-            self.report("other", "name", "Series name %r vs expected %r" % (r.name, e.name))
+            pred = "other"
+            if self.name == "cumcount" and self.f["empty-partition"]:
+                pred = "empty-partition"
+            self.report(pred, "name", "Series name %r vs expected %r" % (r.name, e.name))
             r = r.rename(e.name)
         if list(r.index.names) != list(e.index.names):
-            self.report("other", "index-names", "index names %s vs expected %s" % (list(r.index.names), list(e.index.names)))
+            self.report(self._pred_other(), "index-names",
+                        "index names %s vs expected %s" % (list(r.index.names), list(e.index.names)))
             if r.index.nlevels != e.index.nlevels:
                 return
             r = r.rename_axis(list(e.index.names)) if r.index.nlevels > 1 else r.rename_axis(e.index.names[0])
@@ -664,23 +778,40 @@ class _Judge:
                 self.report("na-keys&dropna=False", "NA-group-missing",
                             "pandas has %d rows with an NA group key, the result none" % en.sum())
                 e = e[~en]
-            if f["cat-key"] and f["observed"] is False and kind != "value_counts":
-                try:
-                    obs = self.pdf.groupby(_keys(self.pdf, case), observed=True, dropna=False, sort=False).size()
-                    obs = set(_key_tuples(obs, self.nkeys))
-                    ru = [k not in obs for k in _key_tuples(r, self.nkeys)]
-                    eu = [k not in obs for k in _key_tuples(e, self.nkeys)]
-                    if sum(ru) != sum(eu):
-                        how = "duplicated" if sum(ru) > sum(eu) else "missing"
-                        pred = "cat-key&observed=False" + ("&shuffle" if f["shuffle-plan"] else "")
-                        self.report(pred, "unobserved-groups-" + how,
-                                    "%d result rows for unobserved category combinations, pandas has %d" % (sum(ru), sum(eu)),
-                                    fam="nunique" if self.name == "nunique" else ("median" if self.name == "median" else "agg-any"))
+            if len(r) > len(e) and f["shuffle-plan"] and self.fam != "cov-corr" and kind != "value_counts":
+                rk = _key_tuples(r, self.nkeys)
+                dup = {k for k in rk if rk.count(k) > 1}
+                if dup and set(rk) == set(_key_tuples(e, self.nkeys)):
+                    if f["neg-zero-key"] and all(any(isinstance(v, float) and v == 0 for v in k) for k in dup):
+                        self.report("key-has-0.0-and-negative-0.0&shuffle", "groups-duplicated",
+                                    "groups %s appear more than once (0.0 and -0.0 are one pandas group)" % sorted(dup)[:4],
+                                    fam="agg-any")
+                        return
+                    if f["dropna"] is False and all("<NA>" in k for k in dup):
+                        self.report("na-keys&dropna=False&shuffle", "NA-group-split",
+                                    "groups %s appear more than once" % sorted(dup, key=repr)[:4], fam="agg-any")
+                        return
+            if f["cat-key"] and f["observed"] is False and kind != "value_counts" and len(r) != len(e):
+                rk, ek = _key_tuples(r, self.nkeys), _key_tuples(e, self.nkeys)
+                xfam = self.name if self.name in ("nunique", "median") else "agg-any"
+                if len(rk) > len(ek) and set(rk) == set(ek) and len(set(rk)) < len(rk) and self.name not in ("cov", "corr"):
+                    self.report("cat-key&observed=False" + ("&shuffle" if f["shuffle-plan"] else ""), "groups-duplicated",
+                                "%d result rows for %d distinct group keys; pandas has %d rows" % (len(rk), len(set(rk)), len(ek)),
+                                fam=xfam)
+                    return
+                if len(rk) < len(ek) and set(rk) < set(ek) and (len(set(rk)) == len(rk) or self.fam == "cov-corr"):
+                    try:
+                        obs = self.pdf.groupby(_keys(self.pdf, case), observed=True, dropna=False, sort=False).size()
+                        obs = set(_key_tuples(obs, self.nkeys))
+                    except Exception:  # noqa: BLE001
+                        obs = None
+                    miss = set(ek) - set(rk)
+                    if obs is not None and not (miss & obs):
                         import numpy as np
 
-                        r, e = r[~np.asarray(ru)], e[~np.asarray(eu)]
-                except Exception:  # noqa: BLE001 (explanation only)
-                    pass
+                        self.report("cat-key&observed=False", "unobserved-groups-missing",
+                                    "%d groups of unobserved category combinations are absent" % len(miss), fam=xfam)
+                        e = e[np.asarray([k not in miss for k in ek])]
         if not agg_like and kind != "cum" and len(r) != len(e):
             nam = _row_na_keys(self.pdf, case)
             if f["dropna"] is not False and nam.any() and len(r) == len(e) - nam.sum():
@@ -706,7 +837,7 @@ class _Judge:
             return
         symptom = m[0]
         if symptom in ("index", "values"):
-            mi = frames.compare(r.index, e.index, ordered=True)
+            mi = frames.compare(_plain_index(r.index), _plain_index(e.index), ordered=True)
             symptom = "index" if mi is not None else "values"
         if symptom == "index" and self.ordered:
             # same rows in another order?
@@ -715,12 +846,19 @@ class _Judge:
             except Exception:  # noqa: BLE001
                 m2 = m
             if m2 is None:
-                self.report(self._pred_other(), "row-order", m[1])
+                self.report(self._pred_other("row-order"), "row-order", m[1])
                 return
         self.report(self._pred_values(r, e, symptom), symptom, m[1])
 
     # ------------------------------------------------------------------
-    def _pred_other(self):
+    def _pred_other(self, symptom=None):
+        f = self.f
+        if symptom == "row-order" and self.name in ("nunique", "median") and f["sort"] is True:
+            return "sort=True&split_out=1"
+        if self.name == "median" and f["split_every"] and (f["series-key"] or f["index-key"]):
+            return "split_every&series-or-index-key"
+        if self.fam in ("transform", "shift", "ffill-bfill") and f["cat-key"] and f["observed"] is False:
+            return "cat-key&observed=False"
         return "other"
 
     def _pred_dtype(self, r, e):
@@ -751,6 +889,16 @@ class _Judge:
             if spans and f["shuffle-plan"]:
                 return "after-shuffle:group-spans-partitions"
             return "group-spans-partitions" if spans else "other"
+        if fam == "transform" and f["neg-zero-key"] and f["shuffle-plan"]:
+            return "key-has-0.0-and-negative-0.0&shuffle"
+        if fam == "transform" and f["na-keys"] and f["dropna"] is False and f["shuffle-plan"]:
+            return "na-keys&dropna=False&shuffle"
+        if fam == "value_counts" and f["na-keys"] and f["dropna"] is False:
+            return "na-keys&dropna=False"
+        if fam == "cum":
+            if f["values-have-NA"] and self._all_diffs_are_result_na(r, e):
+                return "NA-in-values:spurious-NA"
+            return "other"
         if fam == "ffill-bfill":
             return "after-shuffle" if f["shuffle-plan"] else "other"
         if fam == "shift":
@@ -764,6 +912,26 @@ class _Judge:
                 return "ddof!=1"
             return "other"
         return "other"
+
+
+def _all_diffs_are_result_na(self, r, e):
+    import numpy as np
+    import pandas as pd
+
+    a = r.to_frame() if isinstance(r, pd.Series) else r
+    b = e.to_frame() if isinstance(e, pd.Series) else e
+    for i in range(a.shape[1]):
+        x, y = a.iloc[:, i], b.iloc[:, i]
+        xn = x.isna().to_numpy()
+        xv = x.to_numpy(dtype="float64", na_value=np.nan)
+        yv = y.to_numpy(dtype="float64", na_value=np.nan)
+        diff = ~np.isclose(xv, yv, rtol=1e-7, atol=1e-8, equal_nan=True)
+        if (diff & ~xn).any():
+            return False
+    return True
+
+
+_Judge._all_diffs_are_result_na = _all_diffs_are_result_na
 
 
 def _short(x):
@@ -780,6 +948,7 @@ def _exc_prefix(case, name, feats, exc):
     fam = _family(name)
     fr = dask_frame(exc)
     fn = fr[1] if fr else ""
+    len_pdf = feats.get("rows", 1)
     msg = str(exc)
     op = case["op"]
     f = feats
@@ -790,6 +959,9 @@ def _exc_prefix(case, name, feats, exc):
         fam, pred = "agg-any", "series-key-named-like-selected-column&shuffle"
     elif fam == "median" and isinstance(exc, ZeroDivisionError) and f["split_every"] and f["split_every"] > f["npartitions"]:
         pred = "split_every>npartitions"
+    elif fam == "agg" and fn == "_build_agg_args" and "conflicting aggregation" in msg and op["form"] == "named" \
+            and len({tuple(v) for v in op["spec"].values()}) < len(op["spec"]):
+        pred = "named&same-(column,function)-twice"
     elif fam == "agg" and "median" in _agg_funcs(op):
         if isinstance(exc, KeyError) and "options" in msg and f["sort"] is True:
             pred = "agg[median]&sort=True"
@@ -799,23 +971,39 @@ def _exc_prefix(case, name, feats, exc):
             pred = "agg[median]&other"
     elif fam == "idxmin-idxmax" and "all NA values" in msg:
         pred = "group-all-NA-within-a-partition"
-    elif fam == "value_counts" and fn == "_value_counts_aggregate" and f["na-keys"] and f["dropna"] is False:
-        pred = "na-keys&dropna=False"
-    elif fam == "value_counts" and f["multi-key"] and f["shuffle-plan"] and isinstance(exc, KeyError):
-        pred = "multi-key&shuffle"
-    elif fam == "ffill-bfill" and f["na-keys"] and f["dropna"] is False and "NA is ambiguous" in msg:
-        pred = "na-keys&dropna=False"
-    elif fam in ("ffill-bfill", "transform") and f["na-keys"] and f["dropna"] is not False and "No objects to concatenate" in msg:
+    elif fam == "value_counts" and fn == "_value_counts_aggregate" and isinstance(exc, ValueError) \
+            and f["multi-key"] and f["dropna"] is False:
+        pred = "multi-key&dropna=False"
+    elif fam == "value_counts" and fn == "_value_counts_aggregate" and isinstance(exc, AttributeError) \
+            and (not len_pdf or f["empty-partition"]):
+        pred = "empty-partition"
+    elif fam == "value_counts" and fn == "_groupby_aggregate" and "multiple levels" in msg and f["multi-key"] \
+            and (not len_pdf or f["empty-partition"]):
+        pred = "multi-key&empty-partition"
+    elif fam == "value_counts" and isinstance(exc, KeyError) and fn == "operation" and f["empty-partition"] and f["split_out>1"]:
+        pred = "empty-partition&split_out>1"
+    elif fam == "ffill-bfill" and f["nullable-int-key"] and f["dropna"] is False and "NA is ambiguous" in msg:
+        pred = "nullable-int-key&dropna=False"
+    elif fam in ("ffill-bfill", "transform") and f["na-keys"] and f["dropna"] is not False and fn == "_groupby_slice_transform" \
+            and ("No objects to concatenate" in msg or "non-empty take from an empty" in msg):
         fam, pred = "transform-like", "na-keys&dropna!=False"
+    elif fam == "value_counts" and fn == "_value_counts" and f["cat-key"] and f["observed"] is False:
+        pred = "cat-key&observed=False"
     elif fam == "shift" and "duplicate labels" in msg and f["series-key"] and not f["index-unique"]:
         pred = "series-key&duplicate-index-labels"
     elif fam == "cov-corr":
-        if fn == "make_meta_object" and f["split_out>1"] and f["sort"] is not True:
-            pred = "split_out>1&sort!=True"
+        if fn == "make_meta_object":
+            pred = "meta-of-tuple-chunk"
+        elif fn in ("_cov_finalizer", "_cov_agg") and isinstance(exc, ValueError) and f["empty-partition"]:
+            pred = "empty-partition"
+        elif fn == "_groupby_raise_unaligned" and isinstance(exc, KeyError) and f["series-key"] and f["multi-key"]:
+            pred = "series-key&multi-key"
         elif f["index-key"] and isinstance(exc, KeyError):
             pred = "index-key"
         elif "NA is ambiguous" in msg and f["values-have-NA"]:
             pred = "nullable-NA-in-values"
+    if pred == "other":
+        pred = _fallback_pred(f)
     return "%s:%s" % (fam, pred)
 
 
@@ -867,7 +1055,8 @@ def run_case(case, ctx):
     shuffled = feats["shuffle-plan"]
     ordered = (op["kind"] == "cum") or (
         op["kind"] in ("single", "agg") and case["gkw"].get("sort") is True
-        and case["akw"].get("split_out") in (None, 1) and name != "median")
+        and case["akw"].get("split_out") is not True
+        and case["akw"].get("split_out") in ((1,) if name in ("nunique", "median") else (None, 1)))
     ctx.count("compared")
     ctx.count("cmp_ordered" if ordered else "cmp_keyed_multiset")
     ctx.count("plan_shuffle" if shuffled else "plan_no_shuffle")
